@@ -71,8 +71,10 @@ pub struct DriverSpec {
     pub override_write: bool,
     /// fail at this call (counted over all calls the driver sees, constructor = 0)
     pub fail_at: Option<usize>,
-    /// deviate from the layout at this output-reading call index (as seen by the driver)
+    /// deviate from the layout at this call (counted over all calls the driver sees)
     pub deviate_at: Option<(usize, Deviation)>,
+    /// the device answers the same on every call
+    pub constant: bool,
 }
 
 impl DriverSpec {
@@ -85,11 +87,15 @@ impl DriverSpec {
             override_write: false,
             fail_at: None,
             deviate_at: None,
+            constant: false,
         }
     }
 
-    /// the value the device returns for signal `sig` in output-reading call number `call`
+    /// the value the device returns for signal `sig` in call number `call`, counted over ALL
+    /// calls the driver sees (constructor = 0, write-only calls included), so that the answers
+    /// do not depend on which of the two driver methods the crate chooses
     pub fn answer(&self, call: usize, sig: usize) -> OutVal {
+        let call = if self.constant { 0 } else { call };
         let h = mix3(self.seed, call as u64, sig as u64);
         if self.zx > 0 && (h >> 8) % 256 < self.zx as u64 {
             return if (h >> 20) & 1 == 0 { OutVal::Z } else { OutVal::X };
@@ -157,9 +163,8 @@ impl<'a> DevSim<'a> {
         if self.spec.fail_at == Some(t) {
             return Err(DevFail { id: fail_id(self.spec, t) });
         }
-        let c = self.reads;
         self.reads += 1;
-        Ok((c, self.spec.layout.iter().map(|s| (*s, self.spec.answer(c, *s))).collect()))
+        Ok((t, self.spec.layout.iter().map(|s| (*s, self.spec.answer(t, *s))).collect()))
     }
     /// a write-only call as the crate issues it
     pub fn write(&mut self) -> Result<(), DevFail> {
@@ -211,5 +216,6 @@ pub fn gen_spec(ch: &mut Ch, sigs: &[Sig], cfg: &SpecCfg) -> DriverSpec {
         override_write,
         fail_at: None,
         deviate_at: None,
+        constant: false,
     }
 }
